@@ -711,6 +711,23 @@ Definition jp_parse (p : str) : list str :=
 
 Definition jp_eval (d : json) (p : str) : option json := sp_get d (jp_parse p).
 
+(** the oracle for those two functions, written from RFC 6901 (not from
+    [jp_parse]): on a pointer that is "" or '/'-led with valid escapes the
+    tokens are the unescaped '/'-separated pieces ("/" is the one empty token)
+    and evaluation is the lookup of those tokens; other strings are not
+    RFC pointers and are left unconstrained *)
+Definition rfc_decode (p : str) : option (list str) :=
+  match p with
+  | [] => Some []
+  | c :: rest => if c =? SLASH then collect_opt (map sp_untoken (split_on SLASH rest)) else None
+  end.
+
+Definition ok_jp (d : json) (p : str) (toks : list str) (ev : option json) : bool :=
+  match rfc_decode p with
+  | Some path => leqb str_eqb toks path && opt_json_eqb ev (sp_get d path)
+  | None => true
+  end.
+
 (** ** decidable equality of observations and the oracle *)
 Definition oout_eqb (a b : oout) : bool :=
   match a, b with
